@@ -113,26 +113,32 @@ Proof.
 Qed.
 
 (* a goroutine that is parked on a channel send (writeOut) holds no mutex: the read loop queues the
-   frames of c.outBuf only after dispatchLocked has released the Ctx.lck; the write loop's own
-   writeOut (cancelStream) and the timer's come with nothing held *)
+   frames of c.outBuf only after dispatchLocked has released the Ctx.lck; the timer never holds one
+   across a step; and the write loop, the only receiver of c.out, never sends on it at all *)
 Theorem out_parks_hold_nothing : forall s p m, reachable s -> parked_on_out s p -> ~ holds s p m.
 Proof.
   intros s p m R Hp Hh. destruct (reachable_inv s R) as ([] & _).
   unfold parked_on_out, holds, wl_hold, rl_hold, bw_of_state, lx_of in *.
-  destruct p as [|[|p]]; try contradiction.
-  - rewrite Hp in *; cbn in *. destruct Hh as [(_ & H)|[(_ & H)|(_ & H)]]; try discriminate;
-      rewrite H in *; try discriminate.
-    + destruct (rl s) as [|?| |[]|? ?|? ?| | |?|]; discriminate.
-    + destruct (rl s) as [|?| |?|? ?|? ?| | |[]|]; try discriminate; destruct (uc s) as [|[]|]; discriminate.
-  - assert (rl_hold s = HNone /\ (forall c, rl s <> RClose c)) as (Hn & Hc).
-    { unfold rl_hold. destruct Hp as [E|(k & st & E)]; rewrite E; split; auto; discriminate. }
-    unfold rl_hold in Hn.
-    destruct Hh as [(_ & H)|[(_ & H)|(_ & H)]]; try congruence; rewrite H in *.
-    + rewrite Hn in *. destruct (wl s) as [| | |[]|[]| | | |?| | |]; discriminate.
-    + destruct (wl s) as [| | |?|?| | | |[]| | |]; try discriminate;
-        destruct (rl s) as [|?| |?|? ?|? ?| | |[]|]; try discriminate;
-        try (exfalso; eapply Hc; reflexivity);
-        destruct (uc s) as [|[]|]; discriminate.
+  destruct p as [|[|[|[|[|p]]]]]; try contradiction.
+  assert (rl_hold s = HNone /\ (forall c, rl s <> RClose c)) as (Hn & Hc).
+  { unfold rl_hold. destruct Hp as [E|(k & st & E)]; rewrite E; split; auto; discriminate. }
+  unfold rl_hold in Hn.
+  destruct Hh as [(_ & H)|[(_ & H)|(_ & H)]]; try congruence; rewrite H in *.
+  + rewrite Hn in *. destruct (wl s) as [| | |[]|[]| | |?| | |]; discriminate.
+  + destruct (wl s) as [| | |?|?| | |[]| | |]; try discriminate;
+      destruct (rl s) as [|?| |?|? ?|? ?| | |[]|]; try discriminate;
+      try (exfalso; eapply Hc; reflexivity);
+      destruct (uc s) as [|[]|]; discriminate.
+Qed.
+
+Theorem write_loop_never_sends_on_out : forall s a, g_wl a -> guard a s -> outq (eff a s) <= outq s.
+Proof.
+  intros s a Ga G. destruct a; cbn in Ga; try contradiction;
+    try (destruct p as [|[|[|p]]]; cbn in Ga; try lia; try discriminate);
+    cbn; unfold release, resolveX, end_cpc, set_cpc;
+    repeat match goal with
+           | |- context[match ?x with _ => _ end] => destruct x
+           end; cbn; lia.
 Qed.
 End P.
 End CliP2.
